@@ -2432,7 +2432,7 @@ theorem C_run (j : Ideal) (lc : Log) (w : World) (hjw : j.s.world = w)
           | some fs =>
             simp only [hF, Bool.and_eq_true, decide_eq_true_eq] at hcb
             exact ⟨fs, rfl, hcb.1⟩
-        · simp only [hcb, if_false] at hn'
+        · simp only [hcb] at hn'
           exact hg.g3 tag f hn'
       · intro tag f hn
         show curCell j.s.world lc.loggees tag f ≠ none
@@ -2440,7 +2440,7 @@ theorem C_run (j : Ideal) (lc : Log) (w : World) (hjw : j.s.world = w)
         rw [s3 tag f] at hn'
         by_cases hcb : changedAtB j.s.world lc.loggees lc.fields lc.lasts tag f = true
         · simp only [hcb, if_true] at hn'; exact hn'
-        · simp only [hcb, if_false] at hn'
+        · simp only [hcb] at hn'
           exact hg.g4 tag f hn'
     | false =>
       have hwants : j.wants = false := by rw [hdec, hch]
@@ -3040,8 +3040,9 @@ theorem streak_step (s : S1) (op : Op) (hi : Inv s) (hr : s.log.rule = .streak)
       refine ⟨?_, hfield, ⟨[], hq''⟩, fun _ _ _ => by simp [pending, hq'']⟩
       simp only [streakPhi, pending, hq'', hq, appended, List.map_nil, List.append_nil]
       simp only [S1.step, h1, hrun, if_true, hact, fileLines_some, recsOf_append, recsOf_records, f5,
-        List.map_append, List.map_map]
+        List.map_append]
       congr 1
+      simp [List.map_map, Function.comp]
     · have hnr : isRun s.status c = false := by simpa using hrun
       have hw' : (s.step (.ctl c)).1.world = s.world := by simp only [S1.step, h2, hnr]; rfl
       refine ⟨?_, hfield, ⟨items, by rw [hw']; exact hq⟩, fun c' hc' hr' => ?_⟩
@@ -3071,7 +3072,7 @@ theorem streak_exec (s : S1) (h : List Op) (hi : Inv s) (hr : s.log.rule = .stre
       streak_step s op hi hr hok tag sid rest q qs items hl hf hq hno1.1
     have hsr := step_rule s op hi hok
     simp only [S1.exec]
-    rw [ih _ qs' items' hi' (hsr.1.trans hr) hp' (hsr.2.trans hl) d2 d3 hno1.2, d1, List.append_assoc,
+    rw [ih _ hi' (hsr.1.trans hr) hp' qs' items' (hsr.2.trans hl) d2 d3 hno1.2, d1, List.append_assoc,
       ← List.map_append]
     congr 2
     cases op with
@@ -3079,5 +3080,197 @@ theorem streak_exec (s : S1) (h : List Op) (hi : Inv s) (hr : s.log.rule = .stre
     | w o =>
       cases o <;> simp only [appended, List.nil_append]
       split <;> simp
+
+/-! ## one header per new file -/
+
+theorem base_of_same {l l' : Log} (h : SameCfg l l') : l'.base = l.base := by
+  obtain ⟨st, ls, dk, rfl⟩ := h; rfl
+
+/-- the file is absent (and the log untouched), or is one header followed by records only -/
+structure HeaderInv (s : S1) (r : Rule) (b : String) : Prop where
+  rule : s.log.rule = r
+  base : s.log.base = b
+  absent : s.log.disk = none → s.log.stamp = none ∧ s.log.first = true ∧ s.log.isOpen = false
+  present : ∀ c, s.log.disk = some c →
+    ∃ (cols : List String) (rs : List Rec), c = .header r b cols :: rs.map Line.record
+
+/-- the file is what was there before, followed by records only -/
+def OldInv (s : S1) (old : List Line) : Prop := ∃ rs : List Rec, s.log.disk = some (old ++ rs.map Line.record)
+
+theorem disk_after_act (w : World) (l : Log) (pre : List Line) (rs : List Rec)
+    (hd : l.disk = some (pre ++ rs.map Line.record)) :
+    ∃ rs' : List Rec, (l.act w).2.1.disk = some (pre ++ rs'.map Line.record) := by
+  obtain ⟨rs2, h2⟩ := act_appends w l
+  unfold Appends at h2
+  rw [hd, fileLines_some] at h2
+  cases hd' : (l.act w).2.1.disk with
+  | none =>
+    -- an open log that acted still has its file
+    exfalso
+    have hs := act_same w l
+    obtain ⟨st, ls, dk, he⟩ := hs
+    rw [he] at hd'
+    simp only at hd'
+    subst hd'
+    -- `act` never sets the disk to `none` when it was `some`
+    have : ∀ (l0 : Log) (x : List Line), l0.disk ≠ none → (l0.write x).1.disk ≠ none := by
+      intro l0 x h0
+      unfold Log.write
+      split
+      · split <;> simp
+      · exact h0
+    have hne : l.disk ≠ none := by rw [hd]; simp
+    have key : (l.act w).2.1.disk ≠ none := by
+      unfold Log.act Log.log Log.logStreak Log.logDeck
+      simp only []
+      repeat' split
+      all_goals first
+        | exact hne
+        | exact this _ _ hne
+    rw [he] at key
+    exact key rfl
+  | some c' =>
+    rw [hd', fileLines_some] at h2
+    exact ⟨rs ++ rs2, by rw [h2]; simp⟩
+
+/-- the disk of the log on which START acts, for a new file -/
+theorem startLog_disk_header (s : S1) (hi : Inv s) (r : Rule) (b : String) (h : HeaderInv s r b) :
+    ∃ (cols : List String) (rs : List Rec),
+      (startLog s).disk = some (.header r b cols :: rs.map Line.record) := by
+  rw [startLog_eq s hi]
+  simp only []
+  cases hd : s.log.disk with
+  | none =>
+    obtain ⟨h1, h2, _⟩ := h.absent hd
+    have e1 : s.log.reopen.stamp = none := by rw [(reopen_same s.log).1]; exact h1
+    have e2 : s.log.reopen.first = true := by unfold Log.reopen; rw [hd]; exact h2
+    have e3 : fileLines s.log.reopen.disk = [] := by rw [fileLines_reopen, hd]; rfl
+    have e4 : s.log.reopen.rule = r := by rw [(reopen_same s.log).2.2.2.2.2.1]; exact h.rule
+    have e5 : s.log.reopen.base = b := by unfold Log.reopen; rw [hd]; exact h.base
+    simp only [e1, e2, and_self, if_true, e3, e4, e5, List.nil_append]
+    exact ⟨_, [], rfl⟩
+  | some c =>
+    obtain ⟨cols, rs, hc⟩ := h.present c hd
+    have e2 : s.log.reopen.first = false := by unfold Log.reopen; rw [hd]
+    have e3 : s.log.reopen.disk = some c := by unfold Log.reopen; rw [hd]
+    simp only [e2, Bool.false_eq_true, and_false, if_false, e3]
+    exact ⟨cols, rs, by rw [hc]⟩
+
+theorem header_step (s : S1) (op : Op) (hi : Inv s) (hok : ∀ c, op = .ctl c → ctlOk s.status c = true)
+    (r : Rule) (b : String) (h : HeaderInv s r b) : HeaderInv (s.step op).1 r b := by
+  cases op with
+  | w o => exact ⟨h.rule, h.base, h.absent, h.present⟩
+  | ctl c =>
+    have hc := hok c rfl
+    simp only [S1.step]
+    rw [send_shape s c hi hc]
+    -- a run on an open log whose file is a header followed by records
+    have run : ∀ (l0 : Log), SameCfg s.log l0 ∨ l0 = startLog s →
+        (∃ (cols : List String) (rs : List Rec), l0.disk = some (.header r b cols :: rs.map Line.record)) →
+        l0.rule = r → l0.base = b → ∀ (st : Status) (cl : Bool),
+        HeaderInv { s with world := (l0.act s.world).1,
+                           log := if cl then (l0.act s.world).2.1.close else (l0.act s.world).2.1,
+                           status := st } r b := by
+      intro l0 _ hdisk hr0 hb0 st cl
+      obtain ⟨cols, rs, hd⟩ := hdisk
+      obtain ⟨rs', hd'⟩ := disk_after_act s.world l0 [.header r b cols] rs (by simpa using hd)
+      have hs := act_same s.world l0
+      have hrule : (l0.act s.world).2.1.rule = r := (rule_of_same hs).trans hr0
+      have hbase : (l0.act s.world).2.1.base = b := (base_of_same hs).trans hb0
+      cases cl
+      · refine ⟨hrule, hbase, fun x => ?_, fun c hc' => ?_⟩
+        · simp only [Bool.false_eq_true, if_false] at x; rw [hd'] at x; cases x
+        · simp only [Bool.false_eq_true, if_false] at hc'
+          rw [hd'] at hc'
+          exact ⟨cols, rs', by rw [← Option.some.inj hc']; rfl⟩
+      · refine ⟨hrule, hbase, fun x => ?_, fun c hc' => ?_⟩
+        · simp only [if_true] at x
+          have : (l0.act s.world).2.1.close.disk = (l0.act s.world).2.1.disk := rfl
+          rw [this, hd'] at x; cases x
+        · simp only [if_true] at hc'
+          have : (l0.act s.world).2.1.close.disk = (l0.act s.world).2.1.disk := rfl
+          rw [this, hd'] at hc'
+          exact ⟨cols, rs', by rw [← Option.some.inj hc']; rfl⟩
+    cases c with
+    | ready => exact ⟨h.rule, h.base, h.absent, h.present⟩
+    | abort =>
+      exact ⟨h.rule, h.base, fun x => by
+        obtain ⟨a1, a2, _⟩ := h.absent x
+        exact ⟨a1, a2, rfl⟩, h.present⟩
+    | run =>
+      have ho : openSt s.status = true := hc
+      have hopen := hi.opened ho
+      cases hd : s.log.disk with
+      | none => obtain ⟨_, _, a3⟩ := h.absent hd; rw [hopen] at a3; cases a3
+      | some c0 =>
+        obtain ⟨cols, rs, hc0⟩ := h.present c0 hd
+        exact run s.log (Or.inl (SameCfg.refl _)) ⟨cols, rs, by rw [hd, hc0]⟩ h.rule h.base .running false
+    | stop =>
+      simp only []
+      by_cases hst : s.status = .stopped
+      · simp only [hst, if_true]; exact h
+      · have ho : openSt s.status = true := by
+          simp only [ctlOk, Bool.or_eq_true, beq_iff_eq] at hc
+          rcases hc with x | x
+          · exact x
+          · exact absurd x hst
+        have hopen := hi.opened ho
+        simp only [hst, if_false]
+        cases hd : s.log.disk with
+        | none => obtain ⟨_, _, a3⟩ := h.absent hd; rw [hopen] at a3; cases a3
+        | some c0 =>
+          obtain ⟨cols, rs, hc0⟩ := h.present c0 hd
+          exact run s.log (Or.inl (SameCfg.refl _)) ⟨cols, rs, by rw [hd, hc0]⟩ h.rule h.base .stopped true
+    | start =>
+      obtain ⟨cols, rs, hd⟩ := startLog_disk_header s hi r b h
+      have hr0 : (startLog s).rule = r := (startLog_rule s hi).trans h.rule
+      have hb0 : (startLog s).base = b := by
+        rw [startLog_eq s hi]
+        show s.log.reopen.base = b
+        unfold Log.reopen; split <;> exact h.base
+      exact run (startLog s) (Or.inr rfl) ⟨cols, rs, hd⟩ hr0 hb0 .started false
+
+theorem header_exec (s : S1) (h : List Op) (hi : Inv s) (hp : proto s.status h = true)
+    (r : Rule) (b : String) (hh : HeaderInv s r b) : HeaderInv (s.exec h) r b := by
+  induction h generalizing s with
+  | nil => exact hh
+  | cons op rest ih =>
+    obtain ⟨hok, hi', hp'⟩ := thread s op rest hi hp
+    exact ih _ hi' hp' (header_step s op hi hok r b hh)
+
+theorem old_step (s : S1) (op : Op) (hi : Inv s) (hok : ∀ c, op = .ctl c → ctlOk s.status c = true)
+    (old : List Line) (h : OldInv s old) : OldInv (s.step op).1 old := by
+  obtain ⟨rs, hd⟩ := h
+  cases op with
+  | w o => exact ⟨rs, hd⟩
+  | ctl c =>
+    have hc := hok c rfl
+    simp only [S1.step]
+    rw [send_shape s c hi hc]
+    cases c with
+    | ready => exact ⟨rs, hd⟩
+    | abort => exact ⟨rs, hd⟩
+    | run => exact disk_after_act s.world s.log old rs hd
+    | stop =>
+      simp only []
+      split
+      · exact ⟨rs, hd⟩
+      · obtain ⟨rs', h'⟩ := disk_after_act s.world s.log old rs hd
+        exact ⟨rs', h'⟩
+    | start =>
+      have hsd : (startLog s).disk = some (old ++ rs.map Line.record) := by
+        rw [startLog_eq s hi]
+        have e2 : s.log.reopen.first = false := by unfold Log.reopen; rw [hd]
+        have e3 : s.log.reopen.disk = some (old ++ rs.map Line.record) := by unfold Log.reopen; rw [hd]
+        simp only [e2, Bool.false_eq_true, and_false, if_false, e3]
+      exact disk_after_act s.world (startLog s) old rs hsd
+
+theorem old_exec (s : S1) (h : List Op) (hi : Inv s) (hp : proto s.status h = true)
+    (old : List Line) (hh : OldInv s old) : OldInv (s.exec h) old := by
+  induction h generalizing s with
+  | nil => exact hh
+  | cons op rest ih =>
+    obtain ⟨hok, hi', hp'⟩ := thread s op rest hi hp
+    exact ih _ hi' hp' (old_step s op hi hok old hh)
 
 end Ioflo.LogRules
